@@ -6,6 +6,7 @@
 (*   "short"  every byte string of length 0..3 over a 40 byte alphabet,     *)
 (*   "edits"  every one-edit neighbour (insert / delete / substitute /      *)
 (*            transpose) of every table name over that alphabet,            *)
+(*   "bytes2" every one- and two-byte name over all 256 byte values,         *)
 (*   "ext"    extensions / prefixes of table names,                          *)
 (*   "rfc"    the header names of RFC 3261 and common extensions (Texts!RfcNames), *)
 (*            their letter-case variants, extensions and prefixes,            *)
@@ -52,6 +53,7 @@ Init == CASE Part = "cases" -> nm \in UNION { CaseVariants(n) : n \in { x \in Al
           [] Part = "short" -> nm \in { SubSeq(f, 1, Len(f)) : f \in Short }
           [] Part = "edits" -> nm \in UNION { Edits(n) : n \in AllNames }
           [] Part = "rfc" -> nm \in UNION { {RfcNames[j], LowerUpper(RfcNames[j]), Lower(RfcNames[j])} \cup Ext(RfcNames[j]) : j \in 1..Len(RfcNames) }
+          [] Part = "bytes2" -> nm \in { SubSeq(f, 1, Len(f)) : f \in UNION { [1..k -> 0..255] : k \in 1..2 } }   \* every 1- and 2-byte name
           [] Part = "ext" -> nm \in UNION { Ext(n) \cup UNION { Ext(v) : v \in {LowerUpper(n)} } : n \in AllNames }
 Next == FALSE /\ UNCHANGED nm
 Spec == Init /\ [][Next]_nm
